@@ -11,7 +11,7 @@ from sim.simfs import SimFS, SimCrash
 ID = "C04"
 LEVEL = "fault_enumeration"
 ENGINE = "E-store"
-TECHNIQUE = "deterministic simulation with fault injection: real writer on a simulated medium, one storage fault per evaluation (crash point / torn tail / bit rot / append / key bit), restart, real reader; thorough tier enumerates every cut point and every byte position x class per sampled file"
+TECHNIQUE = "deterministic simulation with fault injection: real writer on a simulated medium, one storage fault per evaluation (crash point / torn tail / bit rot / append / key bit), restart, real reader; thorough tier enumerates every cut point and every byte position x class per sampled file; plus a concurrent-readers arm under the deterministic thread scheduler"
 DESIGN_REF = "DESIGN.md section 6, C04"
 LEVEL_TEXT = ("per sampled authentic file the fault space named by the property is enumerated (thorough: all text and "
               "binary prefixes, all positions x 11 replacement classes, all suffixes, all 128 key bits; quick: a seeded "
